@@ -22,9 +22,9 @@ pub struct Case {
 /// latitude away (never filtered).
 fn push_out(lat: f64, lon: f64) -> (f64, f64) {
     let d = oq::dist_to_kaaba(lat, lon);
-    if d < 0.12 {
+    if d < 0.1000001 {
         ((lat + 0.3).min(89.999), lon)
-    } else if d > 179.88 {
+    } else if d > 179.8999999 {
         ((lat - 0.3).max(-89.999), lon)
     } else {
         (lat, lon)
